@@ -75,6 +75,9 @@ func c12Requests() []req {
 		{"text parse syntax error", []string{"text", "parse"}, "C[1] D[\n"},
 		{"write", []string{"write"}, yml},
 		{"write track 3", []string{"write", "--track", "3"}, yml},
+		// many tracks: if anything about them ran concurrently, sixteen of them would hardly ever finish in the same order twice
+		{"write track 16", []string{"write", "--track", "16"}, yml},
+		{"write event track 12", []string{"write", "event", "--track", "12"}, yml},
 		{"write event", []string{"write", "event"}, yml},
 		{"write parse", []string{"write", "parse"}, yml},
 		{"write conv", []string{"write", "conv", "-c", "cmt"}, yml},
